@@ -255,4 +255,33 @@ theorem spec_c05_of_big {env : Env} {sid root st evs st' out} (hb : Big env sid 
         | both a e => simp [Outcome.Proper] at hp
         | fuel => simp [Outcome.Proper] at hp
 
+/-- **C11 for a batch node inside a flow, as the driver evaluates it** (`Spec.c11Flow`) on the model's own
+    observation — any root (leaf, batch node, flow nested to any depth), any context at the start, any pattern of
+    cancellation: everything that follows the first cancelling callback belongs to the very same visit of the very
+    same node (for ANY cancelling callback, not only one of a batch node). -/
+theorem spec_c11Flow_of_big {env : Env} {sid task st evs st' out} (hb : Big env sid task st evs st' out)
+    (storeOf : List Ev → List Nat) :
+    Spec.c11Flow env st.ctx (obsWith storeOf (evs, st', out)) = true := by
+  unfold Spec.c11Flow obsWith
+  simp only [noWaits_idem]
+  cases hc : st.ctx with
+  | done k => rfl
+  | live =>
+    simp only
+    cases hfi : (Spec.noWaits evs).findIdx? (Spec.scriptCancels env) with
+    | none => rfl
+    | some j =>
+      simp only
+      obtain ⟨pre, c, post, htr, hcz, hpre, hget, hdrop⟩ := findIdx?_some_split default hfi
+      rw [hget, hdrop]
+      have hczA : cancelsAt env c = true := by simp [cancelsAt, hcz]
+      have htail : (Spec.noWaits evs).Pairwise (fun c e => cancelsAt env c = true → TailRel c e) :=
+        (big_cancelTail hb).sublist (by simp [Spec.noWaits])
+      rw [htr, List.pairwise_append, List.pairwise_cons] at htail
+      rw [Bool.or_eq_true]
+      right
+      rw [List.all_eq_true]
+      intro e he
+      simpa using (htail.2.1.1 e he hczA).1
+
 end Flyt.Proofs
